@@ -12,6 +12,7 @@
 #endif
 
 void harness(void) {
+    GHOST_INDICES_ARBITRARY();
     char buf[SPLIT_BUF];
     char orig[SPLIT_BUF];
     polyseed_phrase words;
